@@ -74,7 +74,8 @@ Record molecule := mkMol {
   m_natural : fobj;          (* natural_formula: H[1] -> H *)
   m_deuterated : fobj;       (* H[1] -> D *)
   m_mass : Q;                (* natural_formula.mass *)
-  m_Dmass : Q
+  m_Dmass : Q;
+  m_density : option Q       (* self.density = H.density: the natural formula's density (None = Python None) *)
 }.
 
 Definition TEN24 : Q := inject_Z (10 ^ 24).
@@ -89,7 +90,7 @@ Definition molecule_of (E : aenv) (name : option string) (M0 : fobj) (vol charge
   let M := mkF (f_struct M0) (f_kind M0) (Some (volume_density E M0 vol)) (f_name M0) in
   do* H <- f_replace1 E M aH1 aH;
   do* D <- f_replace1 E M aH1 aD;
-  FOk (mkMol name vol charge M H D (f_mass E H) (f_mass E D)).
+  FOk (mkMol name vol charge M H D (f_mass E H) (f_mass E D) (f_density H)).
 
 (* formula(compound) for a Formula argument with no density, natural_density or name given *)
 Definition formula_of_formula (E : aenv) (f : fobj) : fobj :=
